@@ -15,6 +15,6 @@ PROP = {
     "lanes": [
         native("c02"),
         miri("c02", seeds_q=0, seeds_t=16, scale=100),
-        san("asan", "c02", scale=10),
+        san("asan", "c02", scale=5),
     ],
 }
